@@ -261,3 +261,47 @@ func TestWith(t *testing.T) {
 		t.Error("client with UseGlobs has no globs")
 	}
 }
+
+// A multi-tenant store only shows a call the records created under the issuer of its context.
+func TestMultiTenantPartition(t *testing.T) {
+	s := New(SigningKeySpec{Kid: "k", Alg: "RS256"})
+	s.MultiTenant = true
+	s.AddClient(&Client{ID: "web", Secret: "s"})
+	s.AddUser("u", nil)
+	a := op.ContextWithIssuer(context.Background(), "https://a.example")
+	b := op.ContextWithIssuer(context.Background(), "https://b.example")
+	ar, err := s.CreateAuthRequest(a, &oidc.AuthRequest{ClientID: "web", Scopes: oidc.SpaceDelimitedArray{"openid"}}, "u")
+	if err != nil {
+		t.Fatal(err)
+	}
+	if _, err := s.AuthRequestByID(b, ar.GetID()); err == nil {
+		t.Fatal("tenant b sees an auth request of tenant a")
+	}
+	if _, err := s.AuthRequestByID(a, ar.GetID()); err != nil {
+		t.Fatal(err)
+	}
+	s.CompleteAuthRequest(ar.GetID(), "u")
+	at, rt, _, err := s.CreateAccessAndRefreshTokens(a, ar.(*AuthRequest), "")
+	if err != nil {
+		t.Fatal(err)
+	}
+	if err := s.SetUserinfoFromToken(b, new(oidc.UserInfo), at, "u", ""); err == nil {
+		t.Fatal("tenant b honours an access token of tenant a")
+	}
+	if _, err := s.TokenRequestByRefreshToken(b, rt); err == nil {
+		t.Fatal("tenant b honours a refresh token of tenant a")
+	}
+	if _, _, err := s.GetRefreshTokenInfo(b, "web", rt); err == nil {
+		t.Fatal("tenant b knows a refresh token of tenant a")
+	}
+	if e := s.RevokeToken(b, rt, "u", "web"); e != nil || s.Refresh(rt) == nil {
+		t.Fatal("a revocation under tenant b must answer 'nothing to do' and leave tenant a's token alone")
+	}
+	s.TerminateSession(b, "u", "web")
+	if err := s.SetUserinfoFromToken(a, new(oidc.UserInfo), at, "u", ""); err != nil {
+		t.Fatal("a logout under tenant b ended a session of tenant a:", err)
+	}
+	if e := s.RevokeToken(a, rt, "u", "web"); e != nil || s.Refresh(rt) != nil || s.TokenLive(at) {
+		t.Fatal("revocation under the own tenant must take effect")
+	}
+}
